@@ -3021,6 +3021,7 @@ void NifFile::SetDefaultPartition(NiShape* shape) {
 	auto skinPart = hdr.GetBlock(skinInst->skinPartitionRef);
 	if (skinPart) {
 		NiSkinPartition::PartitionBlock part;
+		part.hasFaces = true;
 		if (numVertices > 0) {
 			part.hasVertexMap = true;
 			part.numVertices = numVertices;
